@@ -795,6 +795,14 @@ def run(run):
                       f"slow={spec['slow']} pm={spec['poll_master']} pw={spec['poll_worker']} pace={spec['pacing_mode']} wall={time.time() - tb:.2f}s "
                       f"iters={out.loop_counts} trace={out.qtrace} timing={out.timing}", flush=True)
             report(run, spec, out)
+            if out.inconclusive:
+                watchdogs = run.counters.get("watchdog_batches", 0) + 1
+                run.counters["watchdog_batches"] = watchdogs
+                if watchdogs >= 2:
+                    # the quiescence monitor cannot decide on this tree (e.g. it cannot see the transport): stop here, the
+                    # verdict is inconclusive either way — do not spend 120 s on each of the remaining batches
+                    run.note_inconclusive("two batches ended by the watchdog: remaining batches skipped")
+                    break
             workers_hist[str(spec["workers"])] += 1
             for job in spec["jobs"]:
                 kinds[job["kind"]] += 1
